@@ -222,7 +222,7 @@ impl MarkdownWriter {
                     events.push(Event::Text(" ".into()));
                 }
                 GraphInline::Str(text) => {
-                    if text.starts_with('<') && text.ends_with('>') {
+                    if is_html_tag(&text) {
                         // an inline tag ("<br>" breaks a line inside a cell) is written as it is
                         events.push(Event::InlineHtml(text.into()));
                     } else {
@@ -264,6 +264,32 @@ impl MarkdownWriter {
         }
         events
     }
+}
+
+// "<br>", "</b>", "<span class="x">", "<!-- note -->" - not "<Ctrl+C>", "<=>" or "<2024-01-15 Mon>",
+// which are text (the parser hands those out in pieces on the first read and as one piece once
+// their "<" has been escaped: treated as a tag, they were written raw and escaped in turns)
+fn is_html_tag(text: &str) -> bool {
+    if text.starts_with("<!--") && text.ends_with("-->") {
+        return true;
+    }
+    let Some(inner) = text.strip_prefix('<').and_then(|rest| rest.strip_suffix('>')) else {
+        return false;
+    };
+    let inner = inner.strip_prefix('/').unwrap_or(inner);
+    let inner = inner.strip_suffix('/').unwrap_or(inner);
+    let name = inner
+        .chars()
+        .take_while(|c| c.is_ascii_alphanumeric() || *c == '-')
+        .count();
+    name > 0
+        && inner.starts_with(|c: char| c.is_ascii_alphabetic())
+        && inner[name..]
+            .chars()
+            .next()
+            .map_or(true, |c| c.is_whitespace())
+        && !inner.contains('<')
+        && !inner.contains('>')
 }
 
 fn link_type(link_type: document::LinkType) -> pulldown_cmark::LinkType {
